@@ -42,10 +42,22 @@ def _beta_patch(bs, bqed):
     def beta_qcd_as2(nf):
         return float(bs[0])
 
+    def beta_qcd_as3(nf):
+        return float(bs[1])
+
+    def beta_qcd_as4(nf):
+        return float(bs[2])
+
     def beta_qed(k, nf, nl):
         return float({(0, 2): bqed[0]}[tuple(k)])
 
-    return [(B, "beta_qcd", beta_qcd), (B, "beta_qcd_as2", beta_qcd_as2), (B, "beta_qed", beta_qed)]
+    def beta_qed_aem2(nf, nl):
+        return float(bqed[0])
+
+    # every entry point of eko.beta the variations may go through (dispatchers and order-wise functions): the
+    # injected coefficients must not depend on HOW the code asks for them
+    return [(B, "beta_qcd", beta_qcd), (B, "beta_qcd_as2", beta_qcd_as2), (B, "beta_qcd_as3", beta_qcd_as3),
+            (B, "beta_qcd_as4", beta_qcd_as4), (B, "beta_qed", beta_qed), (B, "beta_qed_aem2", beta_qed_aem2)]
 
 
 class BetaSrc:
